@@ -285,6 +285,9 @@ def worker(item):
     elif kind == 'dynamic':
         _k, dll, seed = item
         dynamic(dll, seed, acc)
+    elif kind == 'lost_mid_session':
+        _k, dll, seed = item
+        lost_mid_session(dll, seed, acc)
     else:
         _k, dll, wins, seed = item
         bystander(dll, wins, seed, acc)
@@ -393,6 +396,68 @@ def dynamic(dll, seed, acc):
     acc.sample({'dll': dll, 'dynamic': 'listener k of %r performs %r inside its callback' % (DYN_KINDS, DYN_ACTIONS)})
 
 
+def lost_mid_session(dll, seed, acc):
+    """a connection-mode transfer towards a CA is under way when the CA loses its address to a lower NAME (right after the k-th
+    frame, every k): from then on the destination is owned by nobody on this stack - the remaining data packets produce no
+    delivery to any listener (what the stack still *sends* for the open session is C13's business, see its known finding)"""
+    from ..refpeer import RefPeer
+    seg = 7 if dll == 'j1939-21' else 60
+    size = seg * 3 - 1
+    data = [(i * 3 + 1) & 0xFF for i in range(size)]
+
+    def one(k):
+        w = rt.World()
+        rt.activate(w)
+        try:
+            bus = Bus(w, base_lat=2e-4)
+            st = Stack(bus, 'X', dll=dll, max_cmdt_packets=255)
+            nm = j1939.Name(arbitrary_address_capable=0, identity_number=0x77, manufacturer_code=0x222)
+            ca = CA(nm, 0x10)
+            st.ecu.add_ca(controller_application=ca)
+            rec = Rec(w)
+            ca.subscribe(rec.cb('ca'))
+            st.ecu.subscribe(rec.cb('U'))
+            peer = RefPeer(bus, 'P', 0x99, dll, rlat=(1e-3,), dt_gap=(0.002,))
+            ca.start(claim_delay=0.0)
+            w.run_for(0.01)
+            if ca.state != NORMAL:
+                return None, ["HARNESS: the CA did not become operational"]
+            n0 = len(bus.log)
+            if k is not None:
+                bus.inject[n0 + k] = [((6 << 26) | (0xEE << 16) | (0xFF << 8) | 0x10, bytes([1, 0, 0, 0, 0, 0, 0, 0]), False)]
+            peer.originate(0x10, 0xD000, data, limit=255, sess=1)
+            w.run_for(4.5)
+            lost_at = None
+            for f in bus.log:
+                if f.injected:
+                    got = [t for (t, idx) in st.rx_log if idx == f.idx]
+                    lost_at = got[0] if got else None
+            probs = []
+            if k is None:
+                if [x[0] for x in rec.items] != ['ca', 'U'] and sorted(x[0] for x in rec.items) != ['U', 'ca']:
+                    probs.append("HARNESS: the undisturbed transfer was not delivered once to the CA and the unfiltered listener: %r" % [x[0] for x in rec.items])
+            elif lost_at is not None:
+                late = [x for x in rec.items if x[1] > lost_at + 1e-9 and len(x[5]) == size]
+                if late:
+                    probs.append("a message addressed to an address the CA had lost %.1f ms earlier was delivered to listener(s) %s"
+                                 % ((late[0][1] - lost_at) * 1e3, sorted(set(x[0] for x in late))))
+            return len(bus.log) - n0, probs
+        finally:
+            w.shutdown()
+    n, probs = one(None)
+    sc = {'kind': 'lost_mid_session', 'dll': dll}
+    if probs:
+        acc.violation(probs[0], sc, None, probs[:2])
+        return
+    for k in range(0, n - 1):
+        _n, probs = one(k)
+        acc.case(('lost_mid_session', dll, k), nontrivial=True, outcome=bool(probs))
+        if probs:
+            import re
+            acc.violation(re.sub(r'[0-9.]+ ms', 'N ms', probs[0]), dict(sc, after_frame=k), None, probs[:2])
+    acc.sample({'kind': 'lost_mid_session', 'dll': dll, 'frames': n})
+
+
 def bystander(dll, wins, seed, acc):
     """complete foreign transport sessions between A and B observed by stack C"""
     big = 30 if dll == 'j1939-21' else 200
@@ -458,6 +523,7 @@ def run(tier, seed):
         for wins in ((1, 1), (2, 3), (255, 255)):
             items.append(('bystander', dll, wins, seed))
         items.append(('dynamic', dll, seed))
+        items.append(('lost_mid_session', dll, seed))
     return run_check(PROP, tier, seed, 'exploration', items, worker, RULE, ASSUME,
                      bounds={'destinations': 256, 'configurations': len(CONFIGS)})
 
@@ -465,6 +531,16 @@ def run(tier, seed):
 def replay(rec):
     sc = rec['scenario']
     acc = Acc()
+    if sc.get('kind') == 'lost_mid_session':
+        a = Acc()
+        lost_mid_session(sc['dll'], rec.get('seed', 0), a)
+        mine = [v for v in a.violations if v['scenario'].get('after_frame') == sc.get('after_frame')]
+        if mine:
+            print("REPRODUCED: " + "; ".join(mine[0]['detail']))
+            print("VIOLATION property=%s replay=(this file)" % PROP)
+            return 1
+        print("no violation on this tree")
+        return 0
     if sc.get('kind') == 'dynamic':
         probs = dynamic_one(sc['dll'], sc['k'], sc['action'], sc['first'])
         if probs:
